@@ -3,7 +3,9 @@
   by /verif/factx (Dirk/Gen/Kernels.lean, regenerated on every run), are extensionally EQUAL to the hand-written
   model functions of Dirk/Model/Rules.lean (§1–3), Dirk/Model/Checker.lean (§4–5), Dirk/Model/Dkg.lean (§6–7, §9–11),
   Dirk/Model/Scatter.lean (§8), Dirk/Model/Crashes.lean (§12), Dirk/Model/Import.lean (§13) and Dirk/Model/Instance.lean
-  (§14: the signer's batch signing loop, with the loop bound that Model/ShortRules.lean rests on), for all inputs.
+  (§14: the signer's batch signing loop, with the loop bound that Model/ShortRules.lean rests on; §15: the signer's
+  pre-check; §16: the ruler's `RunRules` — validation, duplicate-key refusal, path choice — with the lock protocol of
+  Dirk/Model/LockTrace.lean), for all inputs.
 
   A semantic edit of a Go kernel changes the regenerated definition and one of these theorems stops building;
   a Go construct outside the translator's fragment replaces the definition by `kernelUntranslatable_…`, and this
@@ -16,6 +18,7 @@ import Dirk.Model.Scatter
 import Dirk.Model.Crashes
 import Dirk.Model.Import
 import Dirk.Model.Instance
+import Dirk.Model.LockTrace
 import Dirk.Gen.Facts
 import Dirk.Gen.Kernels
 
@@ -893,5 +896,634 @@ example : Gen.signLoopPosAttGen 1 false false false = (1, true) ∧ Gen.signLoop
     Gen.signLoopPosAttGen 3 false false false = (3, false) ∧
     Gen.signLoopPosMultiGen 1 false false = (1, true) ∧ Gen.signLoopPosMultiGen 1 false true = (3, false) ∧
     Gen.signLoopPosMultiGen 1 true false = (3, false) ∧ Gen.signLoopPosMultiGen 2 false false = (2, false) := by decide
+
+/-! ## 15. the signer's pre-check (`preCheck`, `fetchAccount`, `checkAccess`, `unlockAccount` of
+    services/signer/standard/helpers.go) ↔ `fetchAccount` / `preCheck` of Model/Instance.lean
+
+  The generated functions return `core.Result` enumerator VALUES (§14: `resCode`, `resOfCode`, `resCode_agrees`); every
+  opaque call of the Go (the fetcher, the checker, the type assertion, `IsUnlocked`, the unlocker) is a Bool input, and
+  `preCheckGen` is the composition written in `preCheck` itself over the three callees' results. -/
+
+/-- the generated `fetchAccount` on the model's inputs: `name == ""`, `pubKey == nil`, and whether the fetcher's
+    `FetchAccount(name)` / `FetchAccountByKey(pubKey)` (the model's `fetchByName` / `fetchByKey`) finds nothing -/
+def fetchAccountG (cfg : Config) (a : Addr) : Nat × Nat :=
+  Gen.fetchAccountGen a.name.isEmpty a.key.isNone (fetchByName cfg a.name).isNone (a.key.bind (fetchByKey cfg)).isNone
+
+/-- `fetchAccount`: the generated result is SUCCEEDED exactly when the model resolves the account and DENIED otherwise;
+    the fetch made is the one by key exactly when a key is given (whatever the name), the one by name exactly when no key
+    but a name is given, none when neither is; and the model's answer IS the answer of the fetch the Go makes. -/
+theorem fetchAccount_eq_gen (cfg : Config) (a : Addr) :
+    (fetchAccountG cfg a).1 = (if (fetchAccount cfg a).isSome then resCode .succeeded else resCode .denied) ∧
+    ((fetchAccountG cfg a).2 = 2 ↔ a.key.isSome) ∧
+    ((fetchAccountG cfg a).2 = 1 ↔ (a.key.isNone ∧ a.name.isEmpty = false)) ∧
+    fetchAccount cfg a = (match (fetchAccountG cfg a).2 with
+      | 0 => none
+      | 1 => fetchByName cfg a.name
+      | _ => a.key.bind (fetchByKey cfg)) := by
+  unfold fetchAccountG fetchAccount Gen.fetchAccountGen
+  cases hk : a.key with
+  | none =>
+    cases hn : a.name.isEmpty <;> cases hf : fetchByName cfg a.name <;> simp [resCode]
+  | some k =>
+    cases hn : a.name.isEmpty <;> cases hf : fetchByKey cfg k <;> simp [resCode, hf]
+
+/-- the corners `name = "" ∧ key = some _` and `name ≠ "" ∧ key = some _`: in the Go as in the model the KEY wins — the
+    name is not even looked at (for any name, and whatever a fetch by name would have answered) -/
+theorem fetchAccount_key_wins (cfg : Config) (name : String) (k : Bytes) (byNameErr byKeyErr : Bool) :
+    fetchAccount cfg ⟨name, some k⟩ = fetchByKey cfg k ∧
+    (Gen.fetchAccountGen name.isEmpty false byNameErr byKeyErr).2 = 2 ∧
+    (Gen.fetchAccountGen name.isEmpty false byNameErr byKeyErr).1 =
+      (if byKeyErr then resCode .denied else resCode .succeeded) := by
+  cases hn : name.isEmpty <;> cases byNameErr <;> cases byKeyErr <;>
+    simp [fetchAccount, Gen.fetchAccountGen, resCode]
+
+theorem checkAccess_eq_gen (checkerSaysYes : Bool) :
+    Gen.checkAccessGen checkerSaysYes = if checkerSaysYes then resCode .succeeded else resCode .denied := by
+  cases checkerSaysYes <;> rfl
+
+/-- `unlockAccount` on a fetched (non-nil) wallet and account that is an `AccountLocker`: FAILED when `IsUnlocked` errs
+    (`lockStateFail`), else SUCCEEDED when it is unlocked already or the unlocker opens it (`acct.unlockable`), else
+    DENIED — the tail of the model's `preCheck`.  (`unlockErr = false`: the model has no fault for the unlocker's own
+    error; the generated function answers FAILED there, see the example below.) -/
+theorem unlockAccount_eq_gen (lockStateFail unlockable isUnlocked unlockOk : Bool)
+    (h : (isUnlocked || unlockOk) = unlockable) :
+    Gen.unlockAccountGen false false true lockStateFail isUnlocked false unlockOk =
+      if lockStateFail then resCode .failed else if unlockable then resCode .succeeded else resCode .denied := by
+  subst h
+  cases lockStateFail <;> cases isUnlocked <;> cases unlockOk <;> rfl
+
+/-- what the model's `preCheck` answers for a `core.Result` value, `acct` being the fetched account -/
+def preCheckOfCode (acct : Account) (n : Nat) : Except Res Account :=
+  match resOfCode n with
+  | some .succeeded => .ok acct
+  | some r => .error r
+  | none => .error .unknown
+
+/-- the name the Go hands to the checker is the model's `wallet ++ "/" ++ name` -/
+theorem preCheckCheckedNameFn_eq (w n name action : String) :
+    Gen.preCheckCheckedNameFnGen w n name action = w ++ "/" ++ n := rfl
+
+/-- `preCheck`: the model's answer is the decoding of the composed generated functions.
+    When the account does not resolve the generated composition is DENIED whatever the later stages would say (they are
+    not reached); when it resolves to `acct`, with `checkerSaysYes` the checker's answer for the generated account-name
+    expression on `acct`, and the unlock stage instantiated as in `unlockAccount_eq_gen`, the model's `preCheck` is
+    `.ok acct` exactly when the composition is SUCCEEDED and `.error r`, `r` the decoded value, otherwise. -/
+theorem preCheck_eq_gen (cfg : Config) (client : String) (a : Addr) (op : String) (lockStateFail : Bool) :
+    (fetchAccount cfg a = none → ∀ checkRes unlockRes : Nat,
+        Gen.preCheckGen (fetchAccountG cfg a).1 checkRes unlockRes = resCode .denied ∧
+        preCheck cfg client a op lockStateFail = .error .denied) ∧
+    (∀ acct, fetchAccount cfg a = some acct → ∀ isUnlocked unlockOk : Bool,
+        (isUnlocked || unlockOk) = acct.unlockable →
+        preCheck cfg client a op lockStateFail =
+          preCheckOfCode acct (Gen.preCheckGen (fetchAccountG cfg a).1
+            (Gen.checkAccessGen (check cfg.access client (Gen.preCheckCheckedNameFnGen acct.wallet acct.name a.name op) op))
+            (Gen.unlockAccountGen false false true lockStateFail isUnlocked false unlockOk)) ∧
+        (preCheck cfg client a op lockStateFail = .ok acct ↔
+          Gen.preCheckGen (fetchAccountG cfg a).1
+            (Gen.checkAccessGen (check cfg.access client (Gen.preCheckCheckedNameFnGen acct.wallet acct.name a.name op) op))
+            (Gen.unlockAccountGen false false true lockStateFail isUnlocked false unlockOk) = resCode .succeeded)) := by
+  have hf := (fetchAccount_eq_gen cfg a).1
+  refine ⟨?_, ?_⟩
+  · intro hnone c u
+    rw [hnone] at hf
+    simp only [Option.isSome_none] at hf
+    refine ⟨?_, ?_⟩
+    · rw [hf]; simp [Gen.preCheckGen, resCode]
+    · simp [preCheck, hnone]
+  · intro acct hsome isUnlocked unlockOk hu
+    rw [hsome] at hf
+    simp only [Option.isSome_some, if_true] at hf
+    have hname : Gen.preCheckCheckedNameFnGen acct.wallet acct.name a.name op = acct.wallet ++ "/" ++ acct.name := rfl
+    rw [hf, checkAccess_eq_gen, unlockAccount_eq_gen lockStateFail acct.unlockable isUnlocked unlockOk hu, hname]
+    simp only [preCheck, hsome]
+    cases check cfg.access client (acct.wallet ++ "/" ++ acct.name) op <;> cases lockStateFail <;>
+      cases acct.unlockable <;> simp [Gen.preCheckGen, resCode, preCheckOfCode, resOfCode]
+
+/-- the regenerated shape of `preCheck`: what is handed to `checkAccess` as the account name (locals printed as their
+    roles) and the order of the three calls -/
+theorem preCheck_shape_is_source :
+    Gen.preCheckCheckedNameGen = "fmt.Sprintf(\"%s/%s\", wallet.Name(), account.Name())" ∧
+    Gen.preCheckOrderGen = ["fetchAccount", "checkAccess", "unlockAccount"] := by decide
+
+/-- read off the translated code (results 1 = SUCCEEDED, 2 = DENIED, 3 = FAILED): the branches of `unlockAccount` the
+    model does not exercise (nil wallet / account: DENIED; not an `AccountLocker`: SUCCEEDED without asking anyone; the
+    unlocker's own error: FAILED), `fetchAccount`'s corners, and `preCheck` returning the FIRST result that is not
+    SUCCEEDED. -/
+example : Gen.unlockAccountGen true false true false true false true = 2 ∧
+    Gen.unlockAccountGen false true true false true false true = 2 ∧
+    Gen.unlockAccountGen false false false true false true false = 1 ∧
+    Gen.unlockAccountGen false false true false false true true = 3 ∧
+    Gen.unlockAccountGen false false true true true false true = 3 ∧
+    Gen.fetchAccountGen true true false false = (2, 0) ∧ Gen.fetchAccountGen false true false true = (1, 1) ∧
+    Gen.fetchAccountGen true false true false = (1, 2) ∧ Gen.fetchAccountGen false false false true = (2, 2) ∧
+    Gen.preCheckGen 2 3 3 = 2 ∧ Gen.preCheckGen 1 2 3 = 2 ∧ Gen.preCheckGen 1 1 3 = 3 ∧ Gen.preCheckGen 1 1 1 = 1 ∧
+    Gen.preCheckGen 0 1 1 = 0 := by decide
+
+/-- the hypotheses of `preCheck_eq_gen` are satisfiable on a non-trivial configuration: one account, addressed by key
+    while a (different, non-existent) name is given as well — the key wins and the request passes -/
+example :
+    let cfg : Config := { accounts := [⟨"w", "a", [1, 2, 3], true⟩], access := [] }
+    fetchAccount cfg ⟨"other/name", some [1, 2, 3]⟩ = some ⟨"w", "a", [1, 2, 3], true⟩ ∧
+    (fetchAccountG cfg ⟨"other/name", some [1, 2, 3]⟩).2 = 2 := by
+  refine ⟨by decide, ?_⟩
+  exact ((fetchAccount_eq_gen _ _).2.1).2 rfl
+
+/-! ## 16. the ruler's `RunRules` and the head of `runRules` (services/ruler/golang/runner.go) ↔ `firstDup`, `rulesKeyed`
+    (Model/Instance.lean) and the lock protocol `lockWrap` (Model/LockTrace.lean; the thread program of Model/Conc.lean)
+
+  `Gen.runRulesValidateGen` takes, for every scan loop of the Go, the first index at which each guard's condition holds;
+  `IsFirst` is that contract, `scanExit_eq_run` justifies the (fixed-text) combinator `Gen.scanExitGen` against a step-by-step
+  execution of such a loop, and `firstDup_spec` shows the model's `firstDup` meets the contract of the duplicate guard.
+  `Gen.lockCallsTokGen` is produced from the locker calls recognised in the source (a `defer` in a forward loop ⇒ reverse
+  order at the return). -/
+
+/-- `o` is the first index below `n` at which `p` holds (`none`: it holds at no index below `n`) — the contract of the
+    `first…` parameters of `Gen.runRulesValidateGen` -/
+def IsFirst (p : Nat → Prop) (n : Nat) : Option Nat → Prop
+  | none => ∀ i, i < n → ¬ p i
+  | some i => i < n ∧ p i ∧ ∀ j, j < i → ¬ p j
+
+theorem IsFirst_unique {p : Nat → Prop} {n : Nat} {a b : Option Nat} (ha : IsFirst p n a) (hb : IsFirst p n b) :
+    a = b := by
+  cases a with
+  | none =>
+    cases b with
+    | none => rfl
+    | some j => exact absurd hb.2.1 (ha j hb.1)
+  | some i =>
+    cases b with
+    | none => exact absurd ha.2.1 (hb i ha.1)
+    | some j =>
+      have h1 : ¬ j < i := fun h => ha.2.2 j h hb.2.1
+      have h2 : ¬ i < j := fun h => hb.2.2 i h ha.2.1
+      have : i = j := by omega
+      rw [this]
+
+/-! ### `scanExitGen` is what a guard loop does -/
+
+/-- step-by-step execution of `for i := lo; i < lo+fuel; i++ { if C₁(i) { r[i] = v₁; return }; … }`: at index `i` the
+    guards are tried in source order, the first whose condition holds returns (index, its value) -/
+def scanRun (guards : List ((Nat → Bool) × Nat)) : (i fuel : Nat) → Option (Nat × Nat)
+  | _, 0 => none
+  | i, fuel + 1 =>
+    match guards.find? (fun g => g.1 i) with
+    | some g => some (i, g.2)
+    | none => scanRun guards (i + 1) fuel
+
+/-- the first index in `[lo, lo+len)` at which `c` holds -/
+def firstIdxFrom (c : Nat → Bool) : (lo len : Nat) → Option Nat
+  | _, 0 => none
+  | lo, len + 1 => if c lo then some lo else firstIdxFrom c (lo + 1) len
+
+theorem firstIdxFrom_ge (c : Nat → Bool) : ∀ (len lo i : Nat), firstIdxFrom c lo len = some i → lo ≤ i := by
+  intro len
+  induction len with
+  | zero => intro lo i h; simp [firstIdxFrom] at h
+  | succ len ih =>
+    intro lo i h
+    simp only [firstIdxFrom] at h
+    split at h
+    · simp at h; omega
+    · have := ih _ _ h; omega
+
+theorem firstIdxFrom_isFirst (c : Nat → Bool) (n : Nat) : IsFirst (fun i => c i = true) n (firstIdxFrom c 0 n) := by
+  suffices h : ∀ (len lo : Nat), (match firstIdxFrom c lo len with
+      | none => ∀ i, lo ≤ i → i < lo + len → ¬ c i = true
+      | some i => lo ≤ i ∧ i < lo + len ∧ c i = true ∧ ∀ j, lo ≤ j → j < i → ¬ c j = true) by
+    have := h n 0
+    cases hf : firstIdxFrom c 0 n with
+    | none => rw [hf] at this; intro i hi; exact this i (Nat.zero_le _) (by omega)
+    | some i =>
+      rw [hf] at this
+      exact ⟨by omega, this.2.2.1, fun j hj => this.2.2.2 j (Nat.zero_le _) hj⟩
+  intro len
+  induction len with
+  | zero => intro lo; simp only [firstIdxFrom]; intro i h1 h2; omega
+  | succ len ih =>
+    intro lo
+    simp only [firstIdxFrom]
+    by_cases hc : c lo = true
+    · rw [if_pos hc]
+      exact ⟨Nat.le_refl _, by omega, hc, fun j h1 h2 => by omega⟩
+    · rw [if_neg hc]
+      have := ih (lo + 1)
+      cases hf : firstIdxFrom c (lo + 1) len with
+      | none =>
+        rw [hf] at this
+        intro i h1 h2
+        by_cases hi : i = lo
+        · subst hi; exact hc
+        · exact this i (by omega) (by omega)
+      | some i =>
+        rw [hf] at this
+        refine ⟨by omega, by omega, this.2.2.1, ?_⟩
+        intro j h1 h2
+        by_cases hj : j = lo
+        · subst hj; exact hc
+        · exact this.2.2.2 j (by omega) h2
+
+theorem scanExitGen_ge (lo : Nat) : ∀ (l : List (Option Nat × Nat)), (∀ e ∈ l, ∀ i, e.1 = some i → lo ≤ i) →
+    ∀ j w, Gen.scanExitGen l = some (j, w) → lo ≤ j := by
+  intro l
+  induction l with
+  | nil => intro _ j w h; simp [Gen.scanExitGen] at h
+  | cons e rest ih =>
+    intro hall j w h
+    obtain ⟨o, v⟩ := e
+    have hrest := ih (fun e he => hall e (List.mem_cons_of_mem _ he))
+    cases o with
+    | none => simp only [Gen.scanExitGen] at h; exact hrest j w h
+    | some i =>
+      have hi : lo ≤ i := hall (some i, v) (List.mem_cons_self ..) i rfl
+      simp only [Gen.scanExitGen] at h
+      cases hr : Gen.scanExitGen rest with
+      | none => rw [hr] at h; simp at h; omega
+      | some jw =>
+        obtain ⟨j', w'⟩ := jw
+        rw [hr] at h
+        simp only at h
+        split at h
+        · simp at h; have := hrest j' w' hr; omega
+        · simp at h; omega
+
+theorem scanExitGen_all_none : ∀ (l : List (Option Nat × Nat)), (∀ e ∈ l, e.1 = none) → Gen.scanExitGen l = none := by
+  intro l
+  induction l with
+  | nil => intro _; rfl
+  | cons e rest ih =>
+    intro h
+    obtain ⟨o, v⟩ := e
+    have : o = none := h (o, v) (List.mem_cons_self ..)
+    subst this
+    simp only [Gen.scanExitGen]
+    exact ih (fun e he => h e (List.mem_cons_of_mem _ he))
+
+theorem firstIdxFrom_succ (c : Nat → Bool) (lo len : Nat) :
+    firstIdxFrom c lo (len + 1) = if c lo = true then some lo else firstIdxFrom c (lo + 1) len := rfl
+
+theorem scanExitGen_hit (lo len : Nat) : ∀ (guards : List ((Nat → Bool) × Nat)) (g : (Nat → Bool) × Nat),
+    guards.find? (fun g => g.1 lo) = some g →
+    Gen.scanExitGen (guards.map (fun g => (firstIdxFrom g.1 lo (len + 1), g.2))) = some (lo, g.2) := by
+  intro guards
+  induction guards with
+  | nil => intro g h; simp at h
+  | cons h t ih =>
+    intro g hf
+    simp only [List.map_cons]
+    have hge : ∀ e ∈ t.map (fun g => (firstIdxFrom g.1 lo (len + 1), g.2)), ∀ i, e.1 = some i → lo ≤ i := by
+      intro e he i hi
+      simp only [List.mem_map] at he
+      obtain ⟨g', _, rfl⟩ := he
+      exact firstIdxFrom_ge _ _ _ _ hi
+    generalize t.map (fun g => (firstIdxFrom g.1 lo (len + 1), g.2)) = T at ih hge
+    by_cases hc : h.1 lo = true
+    · simp only [List.find?_cons, hc] at hf
+      simp at hf
+      subst hf
+      rw [firstIdxFrom_succ, if_pos hc]
+      simp only [Gen.scanExitGen]
+      cases hr : Gen.scanExitGen T with
+      | none => rfl
+      | some jw =>
+        obtain ⟨j, w⟩ := jw
+        have := scanExitGen_ge lo _ hge j w hr
+        simp only
+        rw [if_neg (by omega)]
+    · have hc' : h.1 lo = false := by simpa using hc
+      simp only [List.find?_cons, hc'] at hf
+      have iht := ih g hf
+      rw [firstIdxFrom_succ, if_neg hc]
+      cases hh : firstIdxFrom h.1 (lo + 1) len with
+      | none => simp only [Gen.scanExitGen]; exact iht
+      | some i =>
+        have := firstIdxFrom_ge _ _ _ _ hh
+        simp only [Gen.scanExitGen, iht]
+        rw [if_pos (by omega)]
+
+/-- **`scanExitGen` against an execution.**  Running the loop over `[0, n)` step by step gives exactly what the
+    generated combinator computes from the guards' first indices (in source order). -/
+theorem scanExit_eq_run (guards : List ((Nat → Bool) × Nat)) (n : Nat) :
+    scanRun guards 0 n = Gen.scanExitGen (guards.map (fun g => (firstIdxFrom g.1 0 n, g.2))) := by
+  suffices h : ∀ (len lo : Nat), scanRun guards lo len =
+      Gen.scanExitGen (guards.map (fun g => (firstIdxFrom g.1 lo len, g.2))) from h n 0
+  intro len
+  induction len with
+  | zero =>
+    intro lo
+    simp only [scanRun, firstIdxFrom]
+    exact (scanExitGen_all_none _ (by intro e he; simp only [List.mem_map] at he; obtain ⟨_, _, rfl⟩ := he; rfl)).symm
+  | succ len ih =>
+    intro lo
+    simp only [scanRun]
+    cases hf : guards.find? (fun g => g.1 lo) with
+    | some g => exact (scanExitGen_hit lo len guards g hf).symm
+    | none =>
+      simp only
+      rw [ih (lo + 1)]
+      congr 1
+      apply List.map_congr_left
+      intro g hg
+      have : g.1 lo = false := by
+        have := List.find?_eq_none.mp hf g hg
+        simpa using this
+      simp [firstIdxFrom, this]
+
+/-! ### the duplicate check -/
+
+/-- the condition of the duplicate guard at index `i`, on the Go's map key: entry `i`'s key equals an earlier entry's -/
+def dupKeyAt (ks : List Bytes) (i : Nat) : Prop :=
+  ∃ k, ks[i]? = some k ∧ Gen.runRulesKeyGen k ∈ (ks.take i).map Gen.runRulesKeyGen
+
+/-- the Go's map key (`var key [48]byte; copy(key[:], PubKey)`) is the model's `toBytes48` -/
+theorem runRulesKeyGen_eq (k : Bytes) : Gen.runRulesKeyGen k = toBytes48 k := rfl
+
+theorem firstDup_spec_aux : ∀ (ks seen : List Bytes) (i0 : Nat),
+    (firstDup seen i0 ks = none → ∀ i k, ks[i]? = some k →
+        toBytes48 k ∉ seen ∧ toBytes48 k ∉ (ks.take i).map toBytes48) ∧
+    (∀ r, firstDup seen i0 ks = some r → ∃ i k, r = i0 + i ∧ ks[i]? = some k ∧
+        (toBytes48 k ∈ seen ∨ toBytes48 k ∈ (ks.take i).map toBytes48) ∧
+        ∀ j k', j < i → ks[j]? = some k' → toBytes48 k' ∉ seen ∧ toBytes48 k' ∉ (ks.take j).map toBytes48) := by
+  intro ks
+  induction ks with
+  | nil =>
+    intro seen i0
+    refine ⟨fun _ i k h => by simp at h, fun r h => by simp [firstDup] at h⟩
+  | cons k0 rest ih =>
+    intro seen i0
+    simp only [firstDup]
+    by_cases hc : seen.contains (toBytes48 k0) = true
+    · simp only [hc, if_true]
+      refine ⟨fun h => by simp at h, ?_⟩
+      intro r hr
+      simp at hr
+      subst hr
+      refine ⟨0, k0, rfl, rfl, Or.inl (by simpa using hc), fun j k' hj => by omega⟩
+    · simp only [hc]
+      have hns : toBytes48 k0 ∉ seen := by simpa using hc
+      obtain ⟨ihn, ihs⟩ := ih (toBytes48 k0 :: seen) (i0 + 1)
+      refine ⟨?_, ?_⟩
+      · intro h i k hk
+        simp only [Bool.false_eq_true, if_false] at h
+        cases i with
+        | zero =>
+          simp at hk; subst hk
+          exact ⟨hns, by simp⟩
+        | succ i' =>
+          simp only [List.getElem?_cons_succ] at hk
+          have := ihn h i' k hk
+          simp only [List.mem_cons, not_or] at this
+          refine ⟨this.1.2, ?_⟩
+          simp only [List.take_succ_cons, List.map_cons, List.mem_cons, not_or]
+          exact ⟨this.1.1, this.2⟩
+      · intro r hr
+        simp only [Bool.false_eq_true, if_false] at hr
+        obtain ⟨i', k, hr', hk, hin, hmin⟩ := ihs r hr
+        refine ⟨i' + 1, k, by omega, by simpa using hk, ?_, ?_⟩
+        · simp only [List.take_succ_cons, List.map_cons, List.mem_cons]
+          rcases hin with h | h
+          · simp only [List.mem_cons] at h
+            rcases h with h | h
+            · exact Or.inr (Or.inl h)
+            · exact Or.inl h
+          · exact Or.inr (Or.inr h)
+        · intro j k' hj hk'
+          cases j with
+          | zero =>
+            simp at hk'; subst hk'
+            exact ⟨hns, by simp⟩
+          | succ j' =>
+            simp only [List.getElem?_cons_succ] at hk'
+            have := hmin j' k' (by omega) hk'
+            simp only [List.mem_cons, not_or] at this
+            refine ⟨this.1.2, ?_⟩
+            simp only [List.take_succ_cons, List.map_cons, List.mem_cons, not_or]
+            exact ⟨this.1.1, this.2⟩
+
+/-- **`firstDup` meets the contract of `firstDupKey`**: it is the first index whose 48-byte key occurred at an earlier
+    index (`none`: there is none). -/
+theorem firstDup_spec (ks : List Bytes) : IsFirst (dupKeyAt ks) ks.length (firstDup [] 0 ks) := by
+  obtain ⟨hn, hs⟩ := firstDup_spec_aux ks [] 0
+  cases hf : firstDup [] 0 ks with
+  | none =>
+    intro i _ hd
+    obtain ⟨k, hk, hin⟩ := hd
+    exact (hn hf i k hk).2 hin
+  | some r =>
+    obtain ⟨i, k, hr, hk, hin, hmin⟩ := hs r hf
+    have hri : r = i := by omega
+    subst hri
+    refine ⟨?_, ⟨k, hk, ?_⟩, ?_⟩
+    · exact (List.getElem?_eq_some_iff.mp hk).1
+    · rcases hin with h | h
+      · simp at h
+      · exact h
+    · intro j hj hd
+      obtain ⟨k', hk', hin'⟩ := hd
+      exact (hmin j k' hj hk').2 hin'
+
+theorem replicate_set_eq (n i a b : Nat) :
+    (List.replicate n a).set i b = (List.range n).map (fun j => if j = i then b else a) := by
+  apply List.ext_getElem
+  · simp
+  · intro j h1 h2
+    simp only [List.getElem_set, List.getElem_replicate, List.getElem_map, List.getElem_range]
+    by_cases h : i = j
+    · simp [h]
+    · have : ¬ j = i := fun e => h e.symm
+      simp [h, this]
+
+/-- **The duplicate refusal.**  For a request of a locking action whose entries are all there (no nil entry, no nil
+    `Data`) and whose keys `ks` are all non-empty, and for ANY values of the `firstEmptyKey` / `firstDupKey` inputs that
+    meet their contract (`IsFirst` of the Go's conditions): the empty-key input is `none`, the duplicate input IS the
+    model's `firstDup [] 0 ks`, the generated validation passes exactly when the model finds no duplicate, and otherwise
+    answers a list of `ks.length` results that is FAILED at the model's duplicate index and UNKNOWN elsewhere. -/
+theorem runRulesValidate_dup_eq_model (ks : List Bytes) (hne : ks ≠ []) (hk : ∀ k ∈ ks, k ≠ [])
+    (fe fd : Option Nat)
+    (hfe : IsFirst (fun i => ∃ k, ks[i]? = some k ∧ k.length = 0) ks.length fe)
+    (hfd : IsFirst (dupKeyAt ks) ks.length fd) :
+    fe = none ∧ fd = firstDup [] 0 ks ∧
+    (Gen.runRulesValidateGen ks.length none none true fe fd = none ↔ firstDup [] 0 ks = none) ∧
+    (∀ i, firstDup [] 0 ks = some i → i < ks.length ∧
+      Gen.runRulesValidateGen ks.length none none true fe fd =
+        some ((List.range ks.length).map
+          (fun j => if j = i then verdictCode .failed else verdictCode .unknown))) := by
+  have hfe' : fe = none := by
+    apply IsFirst_unique hfe
+    intro i _ hex
+    obtain ⟨k, hk1, hk2⟩ := hex
+    have := hk k (List.mem_of_getElem? hk1)
+    exact this (List.eq_nil_of_length_eq_zero hk2)
+  have hfd' : fd = firstDup [] 0 ks := IsFirst_unique hfd (firstDup_spec ks)
+  have hlen : ks.length ≠ 0 := by
+    intro h; exact hne (List.eq_nil_of_length_eq_zero h)
+  refine ⟨hfe', hfd', ?_, ?_⟩
+  · subst hfe'; rw [hfd']
+    cases firstDup [] 0 ks <;> simp [Gen.runRulesValidateGen, Gen.scanExitGen, hlen]
+  · intro i hi
+    have hspec := firstDup_spec ks
+    rw [hi] at hspec
+    refine ⟨hspec.1, ?_⟩
+    subst hfe'; rw [hfd', hi]
+    simp [Gen.runRulesValidateGen, Gen.scanExitGen, hlen, replicate_set_eq, verdictCode]
+
+/-- the hypotheses of `runRulesValidate_dup_eq_model` are satisfiable, with and without a duplicate (keys that differ
+    only beyond byte 48 ARE duplicates; keys shorter than 48 bytes are zero padded) -/
+example : firstDup [] 0 [[1], [2], [1, 0]] = some 2 ∧ firstDup [] 0 [[1], [2], [3]] = none ∧
+    Gen.runRulesValidateGen 3 none none true none (firstDup [] 0 [[1], [2], [1, 0]]) = some [0, 0, 3] ∧
+    Gen.runRulesValidateGen 3 none none true none (firstDup [] 0 [[1], [2], [3]]) = none := by decide
+
+/-- the signer's reading of that answer (`signAtts` / `multisign`: "duplicate → every position FAILED"): its signing loop
+    (§14) turns the FAILED position into FAILED and every UNKNOWN position into FAILED as well, signing nothing -/
+theorem runRulesDup_signer_reads_all_failed (n i : Nat) (a b c : Bool) :
+    ((List.range n).map (fun j => if j = i then verdictCode .failed else verdictCode .unknown)).map
+        (fun v => Gen.signLoopPosAttGen v a b c) = List.replicate n (resCode .failed, false) ∧
+    ((List.range n).map (fun j => if j = i then verdictCode .failed else verdictCode .unknown)).map
+        (fun v => Gen.signLoopPosMultiGen v b c) = List.replicate n (resCode .failed, false) := by
+  refine ⟨?_, ?_⟩ <;>
+  · apply List.ext_getElem
+    · simp
+    · intro j h1 h2
+      simp only [List.getElem_map, List.getElem_range, List.getElem_replicate]
+      by_cases h : j = i <;> simp [h, verdictCode, resCode, Gen.signLoopPosAttGen, Gen.signLoopPosMultiGen]
+
+/-- the other refusals, read off the translated code (0 = UNKNOWN, 3 = FAILED): no data; a nil entry / nil `Data` (whatever
+    the action, and before any key is looked at); for a locking action an empty key or a duplicate, whichever comes first —
+    at the same index the empty key; for the other actions the keys are not looked at -/
+example : Gen.runRulesValidateGen 0 none none true none none = some [3] ∧
+    Gen.runRulesValidateGen 3 (some 1) none false none none = some [0, 3, 0] ∧
+    Gen.runRulesValidateGen 3 (some 2) (some 1) true (some 0) none = some [0, 3, 0] ∧
+    Gen.runRulesValidateGen 4 none none true (some 3) (some 2) = some [0, 0, 3, 0] ∧
+    Gen.runRulesValidateGen 4 none none true (some 1) (some 2) = some [0, 3, 0, 0] ∧
+    Gen.runRulesValidateGen 4 none none true (some 2) (some 2) = some [0, 0, 3, 0] ∧
+    Gen.runRulesValidateGen 4 none none false (some 1) (some 2) = none ∧
+    Gen.runRulesValidateGen 4 none none true none none = none := by decide
+
+/-- the list `RunRules` returns when it gives up at index `i`: FAILED there, UNKNOWN (the initial value) elsewhere -/
+def failedAt (n i : Nat) : List Nat :=
+  (List.range n).map (fun j => if j = i then verdictCode .failed else verdictCode .unknown)
+
+/-- **The validation, completely.**  No data: `[FAILED]`.  Otherwise: the first nil entry or nil `Data` (whichever has the
+    smaller index) is FAILED, whatever the action and the keys; else, for a locking action, the first empty or duplicate
+    key (whichever has the smaller index) is FAILED; else the checks pass; for the other actions the keys are not
+    looked at. -/
+theorem runRulesValidate_spec (n : Nat) (hn : n ≠ 0) (locking : Bool) (fe fd : Option Nat) :
+    (∀ fn fnd, Gen.runRulesValidateGen 0 fn fnd locking fe fd = some [verdictCode .failed]) ∧
+    (∀ i j, Gen.runRulesValidateGen n (some i) (some j) locking fe fd = some (failedAt n (min i j))) ∧
+    (∀ i, Gen.runRulesValidateGen n (some i) none locking fe fd = some (failedAt n i)) ∧
+    (∀ j, Gen.runRulesValidateGen n none (some j) locking fe fd = some (failedAt n j)) ∧
+    (∀ i j, Gen.runRulesValidateGen n none none true (some i) (some j) = some (failedAt n (min i j))) ∧
+    (∀ i, Gen.runRulesValidateGen n none none true (some i) none = some (failedAt n i)) ∧
+    (∀ j, Gen.runRulesValidateGen n none none true none (some j) = some (failedAt n j)) ∧
+    Gen.runRulesValidateGen n none none true none none = none ∧
+    Gen.runRulesValidateGen n none none false fe fd = none := by
+  have hmin : ∀ i j : Nat, (if j < i then j else i) = min i j := by
+    intro i j; rw [Nat.min_def]; split <;> split <;> omega
+  refine ⟨?_, ?_, ?_, ?_, ?_, ?_, ?_, ?_, ?_⟩
+  · intro fn fnd; simp [Gen.runRulesValidateGen, verdictCode]
+  · intro i j
+    by_cases h : j < i <;>
+      simp [Gen.runRulesValidateGen, Gen.scanExitGen, hn, failedAt, ← hmin, replicate_set_eq, verdictCode, h]
+  · intro i; simp [Gen.runRulesValidateGen, Gen.scanExitGen, hn, failedAt, replicate_set_eq, verdictCode]
+  · intro j; simp [Gen.runRulesValidateGen, Gen.scanExitGen, hn, failedAt, replicate_set_eq, verdictCode]
+  · intro i j
+    by_cases h : j < i <;>
+      simp [Gen.runRulesValidateGen, Gen.scanExitGen, hn, failedAt, ← hmin, replicate_set_eq, verdictCode, h]
+  · intro i; simp [Gen.runRulesValidateGen, Gen.scanExitGen, hn, failedAt, replicate_set_eq, verdictCode]
+  · intro j; simp [Gen.runRulesValidateGen, Gen.scanExitGen, hn, failedAt, replicate_set_eq, verdictCode]
+  · simp [Gen.runRulesValidateGen, Gen.scanExitGen, hn]
+  · simp [Gen.runRulesValidateGen, Gen.scanExitGen, hn]
+
+/-- for the actions that do not lock, only the nil checks are made -/
+theorem runRulesValidate_nonlocking (n : Nat) (hn : n ≠ 0) (fe fd : Option Nat) :
+    Gen.runRulesValidateGen n none none false fe fd = none := by
+  simp [Gen.runRulesValidateGen, Gen.scanExitGen, hn]
+
+/-- the locking actions are the model's three signing operations -/
+theorem runRulesIsLocking_eq (action : String) :
+    Gen.runRulesIsLockingGen action = [opSign, opPropose, opAttest].contains action := by
+  have h : ∀ b : String, (action == b) = decide (action = b) := fun b => by
+    by_cases h : action = b <;> simp [h]
+  simp [Gen.runRulesIsLockingGen, opSign, opPropose, opAttest, Bool.or_assoc, h]
+
+/-! ### the lock protocol -/
+
+/-- the string token of a model token (the generated `lockTokGen` / `unlockTokGen` for the keyed ones) -/
+def ltokStr : LTok → String
+  | .pre => "pre" | .lock k => Gen.lockTokGen k | .post => "post" | .unlock k => Gen.unlockTokGen k
+  | .fetch => "fetch" | .store => "store" | .stored => "stored" | .sign => "sign"
+
+/-- **The model's lock protocol is the one recognised in the source.**  With the model's tokens for the four locker
+    calls, the call sequence generated from `RunRules` for the public keys `keys` (request order) around the rules' own
+    calls `inner` IS `lockWrap (keys.map toBytes48) inner`: PreLock, the locks in request order, PostLock, the rules, the
+    unlocks in reverse order — token by token, for all keys and all `inner`.  (An unlock loop in forward order, a PostLock
+    before the locks, a missing call or a key of another width gives a different generated list, for which this equation
+    is false.)  Second part: the same through the string tokens. -/
+theorem lockCalls_eq_lockWrap (keys : List Bytes) (inner : List LTok) :
+    Gen.lockCallsTokGen LTok.pre LTok.post LTok.lock LTok.unlock keys inner = lockWrap (keys.map toBytes48) inner ∧
+    Gen.lockCallsGen keys (inner.map ltokStr) = (lockWrap (keys.map toBytes48) inner).map ltokStr := by
+  refine ⟨?_, ?_⟩
+  · simp only [Gen.lockCallsTokGen, lockWrap, List.map_map, List.map_reverse]
+    rfl
+  · simp only [Gen.lockCallsGen, Gen.lockCallsTokGen, lockWrap, List.map_append, List.map_map, List.map_reverse,
+      List.map_cons, List.map_nil, ltokStr]
+    rfl
+
+/-- the instance `traceAtts` / `traceMsign` use (Model/LockTrace.lean): the keys are the resolved accounts' public keys -/
+theorem lockWrap_keyed_eq_gen {α : Type} (keyed : List (Bytes × α)) (inner : List LTok) :
+    lockWrap (keyed.map (fun e => toBytes48 e.1)) inner =
+      Gen.lockCallsTokGen LTok.pre LTok.post LTok.lock LTok.unlock (keyed.map (·.1)) inner := by
+  rw [(lockCalls_eq_lockWrap _ _).1, List.map_map]
+  rfl
+
+/-- the tokens distinguish what they must: order of the keys, lock from unlock, the four calls -/
+example : Gen.lockCallsGen [[1], [2]] ["fetch"] =
+    ["pre", Gen.lockTokGen (toBytes48 [1]), Gen.lockTokGen (toBytes48 [2]), "post", "fetch",
+     Gen.unlockTokGen (toBytes48 [2]), Gen.unlockTokGen (toBytes48 [1])] := rfl
+
+/-! ### the choice of the path -/
+
+/-- **Per-entry vs batch path.**  For attestations the batch path is taken exactly for more than one entry, for every
+    other action never; and that is `rulesKeyed`'s split: a single resolved entry goes to the single rule (`onAttest`),
+    two or more to `onAttestBatch`.  (`keyed = []` does not reach `runRules`: `RunRules` answers `[FAILED]` for no data,
+    `runRulesValidateGen 0 … = some [3]`; there the model's `rulesKeyed []` reads "batch" and the Go would read "per-entry",
+    neither of which is ever run.) -/
+theorem runRulesPath_eq_model :
+    (∀ n, Gen.runRulesPathGen n true = 1 ↔ n > 1) ∧ (∀ n, Gen.runRulesPathGen n true = 0 ↔ n ≤ 1) ∧
+    (∀ n, Gen.runRulesPathGen n false = 0) ∧
+    (∀ (db : Db) (keyed : List (Bytes × AttData)) (f : Faults), keyed ≠ [] →
+      (Gen.runRulesPathGen keyed.length true = 0 → ∃ k d, keyed = [(k, d)] ∧
+          rulesKeyed db keyed f = (some [(k, d, (onAttest db k d.req f).1)], (onAttest db k d.req f).2)) ∧
+      (Gen.runRulesPathGen keyed.length true = 1 → rulesKeyed db keyed f = onAttestBatch AttData.req db keyed f)) := by
+  have h1 : ∀ n, Gen.runRulesPathGen n true = 1 ↔ n > 1 := by
+    intro n; by_cases h : n > 1 <;> simp [Gen.runRulesPathGen, h]
+  have h0 : ∀ n, Gen.runRulesPathGen n true = 0 ↔ n ≤ 1 := by
+    intro n; by_cases h : n > 1 <;> simp [Gen.runRulesPathGen, h] <;> omega
+  refine ⟨h1, h0, fun n => by simp [Gen.runRulesPathGen], ?_⟩
+  intro db keyed f hne
+  refine ⟨fun h => ?_, fun h => ?_⟩
+  · have hl := (h0 _).mp h
+    match keyed, hne, hl with
+    | [(k, d)], _, _ => exact ⟨k, d, rfl, rfl⟩
+    | _ :: _ :: _, _, hl => simp at hl
+  · have hl := (h1 _).mp h
+    match keyed, hl with
+    | [], hl => simp at hl
+    | [_], hl => simp at hl
+    | _ :: _ :: _, _ => rfl
+
+/-- the action compared with in `runRules` is the model's attestation operation -/
+theorem runRulesPath_action : Gen.runRulesAttestationActionGen = opAttest := by decide
+
+/-! ### the shape -/
+
+/-- the regenerated string facts: which actions lock, how the map key and the lock key are built (48 bytes, `copy` into a
+    fresh array), and the locker calls in source order with their loop structure -/
+theorem runRules_shape_is_source :
+    Gen.runRulesLockingActionsGen = [opSign, opPropose, opAttest] ∧
+    Gen.runRulesKeyWidthGen = 48 ∧ Gen.runRulesLockKeyWidthGen = 48 ∧
+    Gen.runRulesDupKeyExprGen = "var key [48]byte; copy(key[:], rulesData[i].PubKey)" ∧
+    Gen.runRulesLockProtocolGen =
+      ["PreLock", "for-each-in-order: Lock(key48(PubKey)); defer Unlock(key48(PubKey))", "PostLock", "return runRules"] := by
+  decide
 
 end Dirk
